@@ -78,11 +78,15 @@ func (d DocSpec) Any() map[string]any {
 
 // Encode gives the msgpack bytes the API layer would store for this document.
 func (d DocSpec) Encode() []byte {
-	b, err := msgpack.Marshal(d.Any())
-	if err != nil {
+	// sorted map keys: the encoded bytes must be a function of the spec alone (one
+	// seed = one execution); Go's random map order would change bbolt page contents
+	var buf bytes.Buffer
+	enc := msgpack.NewEncoder(&buf)
+	enc.SetSortMapKeys(true)
+	if err := enc.Encode(d.Any()); err != nil {
 		panic(err)
 	}
-	return b
+	return buf.Bytes()
 }
 
 // DecodeDoc decodes stored bytes the way every reader of the database does.
